@@ -215,7 +215,7 @@ def run(chk):
     for m in mods:
         cases.append(("single", [m], seq_fields([m], repeat=m)))
     all_pairs = [(a, b) for a in mods for b in mods if a < b]
-    pairs = all_pairs if not quick else rng.sample(all_pairs, 260)
+    pairs = all_pairs if not quick else rng.sample(all_pairs, 200)
     # targeted: modules that define the same name (what C17_table_clash_free rules out)
     definers = collections.defaultdict(list)
     for m in mods:
